@@ -104,9 +104,11 @@ def digitsVal : Nat → Bool → List Nat → Option Nat
 /-- `int(text)` for base 10 -/
 def parseInt (s : List Nat) : Option Int :=
   match strip s with
-  | 43 :: r => (digitsVal 0 false r).map Int.ofNat
-  | 45 :: r => (digitsVal 0 false r).map (fun n => - Int.ofNat n)
-  | r => (digitsVal 0 false r).map Int.ofNat
+  | [] => none
+  | c :: r =>
+    if c == 43 then (digitsVal 0 false r).map Int.ofNat                       -- `+`
+    else if c == 45 then (digitsVal 0 false r).map (fun n => - Int.ofNat n)   -- `-`
+    else (digitsVal 0 false (c :: r)).map Int.ofNat
 
 inductive KeyErr where
   | notInteger   -- `Invalid('... (not an integer)')`
